@@ -72,10 +72,15 @@ type State struct {
 	alloc string
 	names map[string]Val // source-level local names -> value
 	dead  bool
+	// panic in flight (only in functions whose deferred calls use recover):
+	// panicking is an SMT Bool term ("" = false), pval the panic value (Iface
+	// term), recov "the function returned normally after recovering a panic"
+	panicking, pval, recov string
 }
 
 func (st *State) clone() *State {
 	n := &State{reach: st.reach, epoch: st.epoch, alts: st.alts, alloc: st.alloc, dead: st.dead,
+		panicking: st.panicking, pval: st.pval, recov: st.recov,
 		env: make(map[ssa.Value]Val, len(st.env)+8), heap: make(map[string]string, len(st.heap)+4),
 		names: make(map[string]Val, len(st.names)+4)}
 	for k, v := range st.env {
@@ -132,6 +137,12 @@ type VC struct {
 	usedContracts map[string]bool
 	constOf   map[string]string
 	iteLit    map[string][3]string // phi name -> (condition, literal, literal)
+	// panic handling (functions with deferred calls that use recover)
+	panicSink *[]*panicExit // where panics raised in the body are collected; nil: not modelled
+	inDefers  bool          // deferred calls are being executed (recover() is live)
+	panicOut  []*State      // states in which a panic leaves the function
+	panicOwner *frame       // the frame whose deferred calls see the panics collected in panicSink
+	privCells [][2]string // (heap variable, reference) of function-private local variable cells
 	ghostOut  Tuple
 	ghostRange map[string][2]string
 	paramConsts []string
@@ -314,6 +325,13 @@ func (vc *VC) havocAll(st *State) {
 			ghosts[h] = vc.heapGet(st, h)
 		}
 	}
+	// cells of local variables that only this function (and its directly called
+	// function literals) can reach keep their contents
+	type kept struct{ h, ref, old string }
+	var keep []kept
+	for _, pc := range vc.privCells {
+		keep = append(keep, kept{pc[0], pc[1], vc.heapGet(st, pc[0])})
+	}
 	vc.nepoch++
 	st.epoch = vc.nepoch
 	st.alts = nil
@@ -324,6 +342,9 @@ func (vc *VC) havocAll(st *State) {
 			continue
 		}
 		vc.written[h] = true
+	}
+	for _, k := range keep {
+		vc.assume("(= (select " + vc.heapGet(st, k.h) + " " + k.ref + ") (select " + k.old + " " + k.ref + "))")
 	}
 	a := vc.fresh("alloc")
 	vc.declare(a, "Int")
@@ -791,6 +812,34 @@ func (vc *VC) mergeStates(sts []*State, conds []string) *State {
 	}
 	n := &State{env: map[ssa.Value]Val{}, heap: map[string]string{}, names: map[string]Val{}}
 	n.reach = vc.nameBool("reach", or(conds...))
+	// panic status
+	mergeStr := func(get func(*State) string, dflt string) string {
+		any := false
+		for _, s := range sts {
+			if get(s) != "" {
+				any = true
+			}
+		}
+		if !any {
+			return ""
+		}
+		out := ""
+		for i := len(sts) - 1; i >= 0; i-- {
+			v := get(sts[i])
+			if v == "" {
+				v = dflt
+			}
+			if out == "" {
+				out = v
+			} else if out != v {
+				out = ite(conds[i], v, out)
+			}
+		}
+		return out
+	}
+	n.panicking = mergeStr(func(s *State) string { return s.panicking }, "false")
+	n.pval = mergeStr(func(s *State) string { return s.pval }, "(mk-iface 0 0)")
+	n.recov = mergeStr(func(s *State) string { return s.recov }, "false")
 	// env: keys present in all
 	for k, v0 := range sts[0].env {
 		vals := []Val{v0}
